@@ -52,6 +52,7 @@ LEVEL_NOTE = ("Trusted: Lean kernel; axioms propext/Classical.choice/Quot.sound 
               "readers_pure is a statement about the model's step function (reads return `data` unchanged by construction); that the "
               "real accessors do not mutate is measured by the correspondence (state re-read after every accessor sequence), not proved.")
 LEVEL_NOTE += (" " + "regexes_as_modelled (Ccp.RxC14): the literal separators of CiscoRange.__init__ + parse_integers and the helpers they reach (',,' test, split(','), '-' test, split('-'), the digit filter) are re-read from /repo's AST on every run and proved equal to the ones Model/Range.lean hard-wires (and no regex call has appeared).")
+LEVEL_NOTE += (" Scan sets as revised: regexes_as_modelled ties the regex-engine calls with the pattern in canonical form (canonical verbose form without the flag, group names and redundant escapes removed, per-value specialisation of a pattern passed to a same-file helper or built from a name that ranges over a constant collection, always-true searches left out), flags, re.sub replacements and the separator arguments of str.split/join/replace/strip; the literal tests (\"lit\" in x, == against string literals and their subscripts, startswith) are informational definitions Gen.rx...Info, no theorem is about them.")
 EXHAUSTIVE = {"quick": False, "thorough": False}
 ASSUMPTIONS = [
     "model int() = optional surrounding whitespace, optional sign, ASCII digits",
